@@ -157,6 +157,7 @@ func (c SeriesCheck) Check(ctx context.Context, entry discovery.Entry, entries [
 		}
 
 		done[selector.String()] = true
+		problemsBefore := len(problems)
 
 		if isDisabled(entry.Rule, selector) {
 			done[selector.String()] = true
@@ -412,7 +413,7 @@ func (c SeriesCheck) Check(ctx context.Context, entry discovery.Entry, entries [
 				slog.Debug("No historical series with label used for the query", slog.String("check", c.Reporter()), slog.String("selector", (&l).String()), slog.String("label", name))
 			}
 		}
-		if len(problems) > 0 {
+		if len(problems) > problemsBefore {
 			continue
 		}
 
@@ -625,7 +626,7 @@ func (c SeriesCheck) Check(ctx context.Context, entry discovery.Entry, entries [
 				)
 			}
 		}
-		if len(problems) > 0 {
+		if len(problems) > problemsBefore {
 			continue
 		}
 
